@@ -81,3 +81,16 @@ func VerifC15Snapshot(c *Controller) VerifC15Caches {
 	ec.mu.RUnlock()
 	return out
 }
+
+// VerifC15InformersSynced reports whether every informer the queue start waits for except the pod informer has
+// synced, and whether the pod informer has (read-only: the conjuncts of informersSynced).
+func VerifC15InformersSynced(c *Controller) (others bool, pods bool) {
+	others = c.namespaces.HasSynced() &&
+		c.services.HasSynced() &&
+		c.endpoints.slices.HasSynced() &&
+		c.nodes.HasSynced() &&
+		c.imports.HasSynced() &&
+		c.exports.HasSynced() &&
+		c.networkManager.HasSynced()
+	return others, c.pods.pods.HasSynced()
+}
